@@ -76,7 +76,7 @@ def spec_sites(case, upto=None):
 def gen_case(r, pid=None):
     ncomp = r.choice([0, 1, 1, 2, 2, 3, 3, 4])
     comps = [dict(has_setup=r.random() < 0.7, has_enable=r.random() < 0.75, has_disable=r.random() < 0.75,
-                  inherit=r.random() < 0.3) for _ in range(ncomp)]
+                  inherit=r.random() < 0.4, redeclare=r.random() < 0.5) for _ in range(ncomp)]
     nfb_robot = r.choice([0, 0, 1, 2])
     fb_owners = [-1] * nfb_robot
     for i in range(ncomp):
@@ -109,17 +109,31 @@ def gen_case(r, pid=None):
     total = len(flat)
     # faults: never in setup (unguarded by design, outside C07's list)
     cand = [k for k, s in enumerate(flat) if s[0] != "Setup"]
+    # group the invocations by (callback kind, mode in which it is reached) so that every call site of
+    # the framework is hit equally often, however rarely it occurs in the call sequence
+    groups = {}
+    k = 0
+    _, modes_ = spec_sites(case)
+    for b, m in zip(blocks, modes_):
+        for s_ in b:
+            if s_[0] != "Setup":
+                key = (s_[0], s_[1] if s_[0] in ("Init", "Periodic") else None, m)
+                groups.setdefault(key, []).append(k)
+            k += 1
     x = r.random()
-    pfault = {"C07": 0.8, "C10": 0.5, "C11": 0.5}.get(pid, 0.35)
+    pfault = {"C07": 0.85, "C10": 0.5, "C11": 0.5}.get(pid, 0.35)
     if cand and x < pfault:
         style = r.random()
+        gkeys = sorted(groups, key=repr)
+
+        def pick():
+            return r.choice(groups[r.choice(gkeys)])
         if style < 0.4:
-            case["raises"] = [r.choice(cand)]
+            case["raises"] = [pick()]
         elif style < 0.7:
-            case["raises"] = sorted(set(r.choice(cand) for _ in range(r.randrange(2, 6))))
-        else:   # one site, every time
-            s0 = r.choice([s for s in flat if s[0] != "Setup"])
-            case["raises"] = [k for k, s in enumerate(flat) if s == s0]
+            case["raises"] = sorted(set(pick() for _ in range(r.randrange(2, 6))))
+        else:   # one call site, every time it is reached
+            case["raises"] = list(groups[r.choice(gkeys)])
         if not fms and r.random() < 0.5:
             # without the FMS only the first fault matters; keep a few late ones to test the cut
             case["raises"] = case["raises"][:r.choice([1, 2])]
@@ -330,28 +344,33 @@ def oracle(case, out):
             if prev_tick_t is not None and e[3] - prev_tick_t != P_US:
                 v.append(("C05", "robotPeriodic #%d at FPGA %d us, previous at %d us: not one iteration per %d us" % (rpi, e[3], prev_tick_t, P_US)))
             prev_tick_t = e[3]
-    # ---- C10: snapshots
+    # ---- C10: what every execute() sees: defaults + assignments since the end of the previous enabled pass
     if n and case["nattr"]:
-        st = [[case["marked"].get("%d,%d" % (i, a), 0) if case["marked"].get("%d,%d" % (i, a)) is not None else 0
-               for a in range(case["nattr"])] for i in range(n)]
-        in_enabled_iter = False
-        for idx, e in enumerate(log):
-            s = site_of(e)
-            if e[0] == "exec":
-                if e[2] != st:
-                    v.append(("C10", "execute() of component %d (callback #%d) sees %r, expected %r "
-                                     "(defaults + assignments since the last reset)" % (e[1], idx, e[2], st)))
+        dflt = [[(case["marked"].get("%d,%d" % (i, a)) if case["marked"].get("%d,%d" % (i, a)) is not None else 0)
+                 for a in range(case["nattr"])] for i in range(n)]
+        st = [row[:] for row in dflt]
+        marks = out.get("marks") or []
+        start = 0
+        done_c10 = False
+        for ti, end in enumerate(marks):
+            mode = modes[ti + 1] if ti + 1 < len(modes) else None
+            for idx in range(start, min(end, len(log))):
+                e = log[idx]
+                if e[0] == "exec" and e[2] != st:
+                    v.append(("C10", "pass %d (%s), execute() of component %d (callback #%d) sees %r, expected %r: the defaults of the "
+                                     "will_reset_to attributes plus what was assigned since the previous enabled pass ended"
+                                     % (ti, mode, e[1], idx, e[2], st)))
+                    done_c10 = True
                     break
-                in_enabled_iter = True
-            for (ci, a, val) in case["writes"].get(str(idx), []):
-                st[ci][a] = val
-            if s[0] == "RobotPeriodic" and in_enabled_iter:
-                # end of an enabled iteration: reset (unless the program died here)
-                if fms or idx not in raises:
-                    for key, d in case["marked"].items():
-                        ci, a = map(int, key.split(","))
-                        st[ci][a] = d
-                in_enabled_iter = False
+                for (ci, a, val) in case["writes"].get(str(idx), []):
+                    st[ci][a] = val
+            if done_c10:
+                break
+            if mode in ("Auto", "Teleop"):
+                for key, d in case["marked"].items():
+                    ci, a = map(int, key.split(","))
+                    st[ci][a] = d
+            start = end
     return v
 
 
@@ -442,6 +461,13 @@ def robot_check(ctx, pid):
     ctx.obligation("corr:every generated robot started and could be stepped", not undriven,
                    repr([(o.get("error"), o.get("exc"), o.get("stderr", "")[-300:]) for _, o in undriven[:2]]))
     bad = correspondence(ctx, pairs, pid.lower())
+    fb_extra = None
+    if pid == "C11":
+        # key = explicit key else name with ONE leading 'get_' removed; topic type from the return annotation
+        from . import c09
+        fcs, fobs, fbad = c09.feedback_key_cases(ctx, prefix="c11fb")
+        fb_extra = (c09, fcs, fobs, fbad)
+        ctx.coverage["feedback_key_type_cases"] = len(fcs)
     ctx.coverage.update({
         "evaluations": len(pairs),
         "traces_validated_against_impl": len(pairs),
@@ -458,6 +484,14 @@ def robot_check(ctx, pid):
 
     def search():
         found = []
+        if fb_extra is not None:
+            c09, fcs, fobs, fbad = fb_extra
+            for i in list(fbad) + list(range(len(fcs))):
+                vd = c09.oracle_fcase(fcs[i], fobs[i])
+                if vd:
+                    found.append({"kind": "feedback-key", "what": vd["what"], "fingerprint": "C11:" + vd["fingerprint"],
+                                  "fcase": fcs[i], "observed": fobs[i]})
+                    return found
         for i in bad[:60]:
             c, o = pairs[i]
             if any(p == pid for p, _ in oracle(c, o)):
@@ -487,6 +521,17 @@ def robot_check(ctx, pid):
 
 
 def robot_replay(ctx, pid, obj):
+    if obj.get("kind") == "feedback-key":
+        from . import c09
+        o = c09.exec_fcase(c09.impl(), obj["fcase"], flavor=0)
+        msgs = c09.oracle_fcase(obj["fcase"], o)
+        print("feedback case:", obj["fcase"], "->", o)
+        if msgs:
+            print("violates C11:", msgs["what"])
+            print("VIOLATION property=C11 replay=(replayed)")
+            return 1
+        print("key and topic type are as the property says")
+        return 0
     if obj.get("kind") != "input":
         print("replay names broken obligations only: %s" % [b.get("name") for b in obj.get("broken_obligations", [])])
         return robot_check(ctx, pid)
